@@ -127,8 +127,8 @@ theorem nnearest0_spec {apart : (ℕ → K) → ℕ → ℕ → List ℕ} {asort
     (hi : i < n) (hN : N < n)
     (hinj : ∀ a < n, ∀ b < n, key a = key b → a = b)
     (hself : ∀ j < n, j ≠ i → key i < key j) :
-    ∃ L, Impl.nnearest0 apart asort key n N = some L ∧ Spec.IsNNearest key n i N L := by
-  unfold Impl.nnearest0
+    ∃ L, Impl.nnearestGen N (N + 1) 1 apart asort key n = some L ∧ Spec.IsNNearest key n i N L := by
+  unfold Impl.nnearestGen
   rw [if_pos hN]
   refine ⟨_, rfl, ?_⟩
   have hperm := hp.perm key n N hN
@@ -205,9 +205,9 @@ theorem cutoff0_spec {asort : (ℕ → K) → List ℕ → List ℕ} (hs : IsArg
     (key : ℕ → K) (within : ℕ → Bool) (n i : ℕ) (hi : i < n) (hwi : within i = true)
     (hinj : ∀ a < n, ∀ b < n, key a = key b → a = b)
     (hself : ∀ j < n, j ≠ i → key i < key j) :
-    Spec.IsCutoffList key (fun j => within j = true) n i (Impl.cutoff0 asort key within n).2 ∧
-    (Impl.cutoff0 asort key within n).1 = (Impl.cutoff0 asort key within n).2.length := by
-  unfold Impl.cutoff0
+    Spec.IsCutoffList key (fun j => within j = true) n i (Impl.cutoffGen 1 1 asort key within n).2 ∧
+    (Impl.cutoffGen 1 1 asort key within n).1 = (Impl.cutoffGen 1 1 asort key within n).2.length := by
+  unfold Impl.cutoffGen
   simp only
   have hsp := hs.perm key ((List.range n).filter within)
   have hsort := hs.sorted key ((List.range n).filter within)
@@ -269,6 +269,15 @@ theorem isNNearest_unique {key : ℕ → K} {n i N : ℕ} {L L' : List ℕ}
     omega
   have hperm : L.Perm L' :=
     (List.perm_ext_iff_of_nodup h.nodup h'.nodup).mpr fun a => ⟨fun x => hsub h h' x, fun x => hsub h' h x⟩
+  have hasymm : ∀ a b, a ∈ L → b ∈ L' → key a < key b → key b < key a → a = b := by
+    intro a b _ _ h1 h2; exact absurd h1 (not_lt.mpr (le_of_lt h2))
+  exact List.Perm.eq_of_pairwise (le := fun a b => key a < key b) hasymm h.sorted h'.sorted hperm
+
+/-- the cutoff Spec determines the list -/
+theorem isCutoffList_unique {key : ℕ → K} {within : ℕ → Prop} {n i : ℕ} {L L' : List ℕ}
+    (h : Spec.IsCutoffList key within n i L) (h' : Spec.IsCutoffList key within n i L') : L = L' := by
+  have hperm : L.Perm L' :=
+    (List.perm_ext_iff_of_nodup h.nodup h'.nodup).mpr fun a => by rw [h.mem a, h'.mem a]
   have hasymm : ∀ a b, a ∈ L → b ∈ L' → key a < key b → key b < key a → a = b := by
     intro a b _ _ h1 h2; exact absurd h1 (not_lt.mpr (le_of_lt h2))
   exact List.Perm.eq_of_pairwise (le := fun a b => key a < key b) hasymm h.sorted h'.sorted hperm
